@@ -272,6 +272,17 @@ def t_catch_parameter_redeclared(text, res):
     return False
 
 
+def t_object_trailing_comma(text, res):
+    """a ',' directly followed by '}' (an object literal with a trailing comma)"""
+    if res is None:
+        return re.search(r',\s*\}', text) is not None
+    toks = res.tokens
+    for i in range(len(toks) - 1):
+        if toks[i].value == ',' and toks[i + 1].value == '}' and toks[i].kind != 'string' and toks[i + 1].kind != 'string':
+            return True
+    return False
+
+
 def tt_comment_after_restricted_keyword(tree):
     """tree-level form: the operand of a return / throw / break / continue has
     a comment somewhere on its leftmost spine, i.e. the printer emits that
